@@ -48,7 +48,14 @@ def pick_size(rng, B, pl, allow_empty=True, big=True):
     return size, cls
 
 
+# contents whose SHA-1 / SHA-256 digest happens to be valid UTF-8 (found by search): a bencode
+# decoder that returns text for valid UTF-8 hands such a piece hash / merkle root back as str
+UTF8_DIGEST = [b"content-95049", b"c2-89753655"]
+
+
 def pick_blob(rng, size):
+    if 0 < size < 200 and rng.random() < 0.25:
+        return Blob.hexb(rng.choice(UTF8_DIGEST))
     r = rng.random()
     if size and r < 0.12:
         return Blob.zero(size)
